@@ -296,7 +296,7 @@ pub fn cells(family: &str) -> Vec<Cell>
 				}
 			}
 		}
-		"initialisation" | "assignment" | "argument" | "return" | "constant" | "array element" | "struct member" | "index" =>
+		"initialisation" | "assignment" | "argument" | "return" | "constant" | "array element" | "struct member" | "index" | "index in assignment target" | "index in operand" | "index in condition" | "index in return value" =>
 		{
 			for target in PRIMS
 			{
@@ -319,14 +319,22 @@ pub fn cells(family: &str) -> Vec<Cell>
 							format!("{PRELUDE}struct Q\n{{\n\tx: {target},\n}}\nfn f()\n{{\n{}\tvar q: Q = Q {{ x: {e} }};\n}}\n", locals()),
 							vec![500, 504, 512],
 						),
-						"index" =>
+						"index" | "index in assignment target" | "index in operand" | "index in condition" | "index in return value" =>
 						{
-							// the index of an array must be usize (E503)
+							// the index of an array must be usize (E503), wherever the access stands
 							if target != "usize"
 							{
 								continue;
 							}
-							(function(&format!("\tvar r: i32 = arr[{e}];\n")), vec![503, 500, 504])
+							let text = match family
+							{
+								"index" => function(&format!("\tvar r: i32 = arr[{e}];\n")),
+								"index in assignment target" => function(&format!("\tarr[{e}] = 1;\n")),
+								"index in operand" => function(&format!("\tvar r: i32 = arr[{e}] + 1i32;\n")),
+								"index in condition" => function(&format!("\tif arr[{e}] == 1i32\n\t{{\n\t}}\n")),
+								_ => format!("{PRELUDE}fn f() -> i32\n{{\n{}\treturn: arr[{e}]\n}}\n", locals()),
+							};
+							(text, vec![503, 500, 504])
 						}
 						_ =>
 						{
@@ -389,8 +397,26 @@ fn leak(s: &str) -> &'static str
 	FAMILIES.iter().find(|f| **f == s).copied().unwrap_or("?")
 }
 
-pub const FAMILIES: [&str; 14] =
-	["binary", "comparison", "unary", "cast", "initialisation", "assignment", "argument", "return", "constant", "array element", "struct member", "index", "call arity", "access"];
+pub const FAMILIES: [&str; 18] = [
+	"binary",
+	"comparison",
+	"unary",
+	"cast",
+	"initialisation",
+	"assignment",
+	"argument",
+	"return",
+	"constant",
+	"array element",
+	"struct member",
+	"index",
+	"index in assignment target",
+	"index in operand",
+	"index in condition",
+	"index in return value",
+	"call arity",
+	"access",
+];
 
 pub fn drive(d: &mut Driver)
 {
